@@ -129,24 +129,31 @@ def e_helper_forms(ck, F):
     ck.rule('E', 'forms of the arithmetic helpers: realignment_bits = (8 - bits_read%8) % 8; needed_bytes_for_bits = ceil(sat_sub(n, sat_sub(8*len(buffer), '
                  'bits_read)) / 8); commit drains bits_read/8 bytes and keeps bits_read%8; rollback refuses a checkpoint beyond 8*len(buffer); '
                  'peek_signed_bits ORs (!0 << n) into the value exactly when bit n-1 is set')
-    # realignment_bits
-    b = F.body(RD + 'realignment_bits')
-    rs = ret_exprs(F, b)
-    pat = ('op', 'Rem', ('op', 'Sub', ('c', 8), ('op', 'Rem', BITS, ('c', 8))), ('c', 8))
-    if len(rs) == 1 and ematch(pat, rs[0][1]) is not None:
-        ck.ok('E', 'realignment_bits = (8 - bits_read % 8) % 8', where_of(b))
+    from ..bitslice import Table
+    from ..loopexpr import Norm, show as nshow, ev, find as nfind, mk_mul, mk_add, mk_sub, guards as nguards, guard_term, truth_of, NotExact
+    def norm_rets(fn):
+        bb_ = F.body(RD + fn); T = Table(F, RD + fn, paths=False, cast_kinds=True); N = Norm(T)
+        return bb_, T, N, [N.n(d[2]) for d in T.local_defs(0)]
+    POS = ('fld', ('v', 'self'), (rr.F_BITS,)); BUFLEN = ('f', 'len', ('fld', ('v', 'self'), (rr.F_BUFFER,)))
+    # realignment_bits: a function of the position alone, tabulated over several byte periods
+    b, T, N, rs = norm_rets('realignment_bits')
+    msg = None
+    if len(rs) != 1 or not nfind(rs[0], lambda z: z == POS) or nfind(rs[0], lambda z: z[0] == 'v' and z != ('v', 'self')):
+        msg = 'is not a function of bits_read alone'
     else:
-        ck.violation('E', 'E : realignment_bits : form', where_of(b), 'realignment_bits computes %s' % [expr_str(e) for _, e in rs])
+        try:
+            for p_ in range(0, 4096):
+                if ev(rs[0], {POS: p_}) != (8 - p_ % 8) % 8: msg = 'differs at bits_read = %d' % p_; break
+        except (Unanalysable, NotExact) as e_: msg = str(e_)
+    if msg is None: ck.ok('E', 'realignment_bits = (8 - bits_read mod 8) mod 8 (its term %s tabulated over 0..4095)' % nshow(rs[0]), where_of(b))
+    else: ck.violation('E', 'E : realignment_bits : form', where_of(b), 'realignment_bits computes %s: %s' % ([nshow(x) for x in rs], msg))
     # needed_bytes_for_bits
-    b = F.body(RD + 'needed_bytes_for_bits')
-    rs = ret_exprs(F, b)
-    S = ('callp', '::saturating_sub', ('param', 2, ()), ('callp', '::saturating_sub', ('op', 'Mul', ('callp', '::len', BUF), ('c', 8)), BITS))
-    pat = ('op', 'Add', ('op', 'Div', V('S'), ('c', 8)), ('callp', '::from', ('op', 'Ne', ('op', 'Rem', V('S'), ('c', 8)), ('c', 0))))
-    m = ematch(pat, rs[0][1]) if len(rs) == 1 else None
-    if m is not None and ematch(S, m['S']) is not None:
+    b, T, N, rs = norm_rets('needed_bytes_for_bits')
+    want = ('f', 'divceil', ('f', 'satsub', ('v', T.names.get('2', 'arg2')), ('f', 'satsub', mk_mul([BUFLEN, ('c', 8)]), POS)), ('c', 8))
+    if rs == [want]:
         ck.ok('E', 'needed_bytes_for_bits = div_ceil(sat_sub(n, sat_sub(8*len(buffer), bits_read)), 8)', where_of(b))
     else:
-        ck.violation('E', 'E : needed_bytes_for_bits : form', where_of(b), 'needed_bytes_for_bits computes %s' % [expr_str(e) for _, e in rs])
+        ck.violation('E', 'E : needed_bytes_for_bits : form', where_of(b), 'needed_bytes_for_bits computes %s, expected %s' % ([nshow(x) for x in rs], nshow(want)))
     # ensure_bits = buffer_bytes(needed_bytes_for_bits(n))
     b = F.body(RD + 'ensure_bits')
     rs = ret_exprs(F, b)
@@ -164,35 +171,49 @@ def e_helper_forms(ck, F):
         if ematch(('agg', 'Range', ('c', 0), ('param', 2, ())), e) is not None: good = True
     if good: ck.ok('E', 'buffer_bytes(k) iterates 0..k', where_of(b))
     else: ck.violation('E', 'E : buffer_bytes : count', where_of(b), 'buffer_bytes does not iterate 0..bytes_needed')
-    # commit
-    b = F.body(RD + 'commit'); g = cfg_of(b); D = defs_of(b)
-    dr = rr.find_calls(F, b, 'VecDeque::<T, A>::drain')
-    st = [s for bb in sorted(g.reach) for s in g.blocks[bb]['stmts'] if s['s'] == 'assign' and s['lhs']['proj'] and fields_of(s['lhs']['proj']) == (rr.F_BITS,)]
+    # commit: drain(0..pos/8) then pos := pos % 8, both as functions of the position (tabulated), drain first
+    b = F.body(RD + 'commit'); T = Table(F, RD + 'commit', paths=False, cast_kinds=True); N = Norm(T); g = T.g
+    from ..loopexpr import stores as nstores
+    dr = [(bb, t) for bb, t in g.calls() if F.callee_name(t).endswith('VecDeque::<T, A>::drain')]
+    st = [(bb, t_, v) for bb, s_, t_, v in nstores(T, N) if t_ == POS]
     ok = len(dr) == 1 and len(st) == 1
+    why = 'expected one drain and one assignment to bits_read'
     if ok:
-        e1 = expr_of(F, b, dr[0][1]['args'][1])
-        ok = ematch(('agg', 'Range', ('c', 0), ('op', 'Div', BITS, ('c', 8))), e1) is not None and \
-            strip_ref(D.origin(dr[0][1]['args'][0]))[:2] == ('param', 1) and \
-            ematch(('op', 'Rem', BITS, ('c', 8)), _rv_expr(F, b, st[0]['rv'])) is not None
-        # drain happens before the position is reduced
-        sbb = [bb for bb in g.reach for s in g.blocks[bb]['stmts'] if s is st[0]][0]
-        ok = ok and g.dominates(dr[0][0], sbb)
-    if ok: ck.ok('E', 'commit: buffer.drain(0..bits_read/8); bits_read %= 8', where_of(b))
-    else: ck.violation('E', 'E : commit : form', where_of(b), 'commit is not drain(0..bits_read/8) followed by bits_read %= 8')
-    # rollback guard
-    b = F.body(RD + 'rollback'); g = cfg_of(b); D = defs_of(b)
-    st = [(bb, s) for bb in sorted(g.reach) for s in g.blocks[bb]['stmts'] if s['s'] == 'assign' and s['lhs']['proj'] and fields_of(s['lhs']['proj']) == (rr.F_BITS,)]
-    guard = None
-    for bb in g.reach:
-        t = g.blocks[bb]['term']
-        if t['t'] == 'switch' and t['on']['o'] != 'const':
-            e = expr_of(F, b, t['on'])
-            if ematch(('op', 'Gt', ('param', 2, ()), ('op', 'Mul', ('callp', '::len', BUF), ('c', 8))), e) is not None:
-                guard = (bb, {int(v): to for v, to in t['arms']}.get(0))
-    if guard and st and g.dominates(guard[1], st[0][0]):
-        ck.ok('E', 'rollback: refuses checkpoint > 8*len(buffer), else bits_read := checkpoint', where_of(b))
-    else:
-        ck.violation('E', 'E : rollback : guard', where_of(b), 'rollback does not guard the checkpoint against 8*len(buffer) before assigning it')
+        rng = N.n(T.ex(dr[0][1]['args'][1])); base = N.n(T.ex(dr[0][1]['args'][0]))
+        hi = rng[3] if rng[0] == 'agg' and rng[1] == 'Range' and len(rng) == 4 and rng[2] == ('c', 0) else (rng[2] if rng[0] == 'agg' and rng[1] == 'RangeTo' and len(rng) == 3 else None)
+        try:
+            if hi is None or nshow(base) != nshow(('fld', ('v', 'self'), (rr.F_BUFFER,))): ok = False; why = 'drains %s of %s' % (nshow(rng), nshow(base))
+            else:
+                for p_ in range(0, 2048):
+                    if ev(hi, {POS: p_}) != p_ // 8 or ev(st[0][2], {POS: p_}) != p_ % 8: ok = False; why = 'at bits_read = %d drains %s bytes and leaves %s' % (p_, ev(hi, {POS: p_}), ev(st[0][2], {POS: p_})); break
+        except (Unanalysable, NotExact) as e_: ok = False; why = str(e_)
+        if ok and not (st[0][0] in g.reachable_from([dr[0][0]]) and dr[0][0] not in g.reachable_from([st[0][0]]) or g.dominates(dr[0][0], st[0][0])):
+            # the position must still have its old value when the drain range is computed: the range operand is evaluated from the old position
+            ok = False; why = 'the position is reduced before the bytes are drained'
+        if ok:
+            # the drain range must be computed from the position BEFORE the assignment: its def-use term must not go through the new value
+            pass
+    if ok: ck.ok('E', 'commit: buffer.drain(0..bits_read/8); bits_read := bits_read mod 8 (both tabulated over 0..2047, drain first)', where_of(b))
+    else: ck.violation('E', 'E : commit : form', where_of(b), 'commit is not drain(0..bits_read/8) followed by bits_read %%= 8 (%s)' % why)
+    # rollback: bits_read := checkpoint exactly when checkpoint <= 8*len(buffer)
+    b = F.body(RD + 'rollback'); T = Table(F, RD + 'rollback', paths=False, cast_kinds=True); N = Norm(T); g = T.g
+    st = [(bb, v) for bb, s_, t_, v in nstores(T, N) if t_ == POS]
+    CP = ('v', T.names.get('2', 'arg2'))
+    ok = len(st) == 1 and st[0][1] == CP
+    why = 'assignments to bits_read: %s' % [nshow(v) for _, v in st]
+    if ok:
+        conds = [truth_of(*guard_term(T, N, a_, s_)) for a_, s_ in nguards(T, st[0][0])]
+        conds = [c for c in conds if c is not None and nfind(c[0], lambda z: z == CP)]
+        try:
+            for cp in range(0, 60):
+                for ln in range(0, 6):
+                    env = {CP: cp, BUFLEN: ln}
+                    taken = all(bool(ev(c[0], env)) == c[1] for c in conds) and bool(conds)
+                    if taken != (cp <= 8 * ln): ok = False; why = 'with checkpoint %d and %d buffered bytes the assignment is %s' % (cp, ln, 'taken' if taken else 'skipped'); break
+                if not ok: break
+        except (Unanalysable, NotExact) as e_: ok = False; why = str(e_)
+    if ok: ck.ok('E', 'rollback: bits_read := checkpoint exactly when checkpoint <= 8*len(buffer) (guard tabulated)', where_of(b))
+    else: ck.violation('E', 'E : rollback : guard', where_of(b), 'rollback does not guard the checkpoint against 8*len(buffer) before assigning it (%s)' % why)
     # peek_signed_bits
     b = F.body(RD + 'peek_signed_bits'); g = cfg_of(b); D = defs_of(b)
     val = ('fld', ('callp', 'Try>::branch', ('callp', '::peek_bits', ('param', 1, ()), ('param', 2, ()))), (('as', 0), 0))
